@@ -10,6 +10,7 @@ CONSTANTS
   BugEnds = {FALSE}
   CRanges = {0}
   Rots <- Rots_q
+  Scales <- Scales_q
 INVARIANT TypeOK
 INVARIANT CacheFresh
 INVARIANT EmitCache
